@@ -449,7 +449,8 @@ UPGRADER:
 			switch c {
 			case '\r':
 				if p.headerValue == "" {
-					p.headerValue = string(data[start:i])
+					// optional whitespace after the value is not part of it.
+					p.headerValue = strings.TrimRight(string(data[start:i]), " \t")
 				}
 				switch p.headerKey {
 				case transferEncodingHeader, trailerHeader, contentLengthHeader:
@@ -646,13 +647,11 @@ UPGRADER:
 			}
 		case stateBodyTrailerHeaderValue:
 			switch c {
-			case ' ':
-				if p.headerValue == "" {
-					p.headerValue = string(data[start:i])
-				}
 			case '\r':
 				if p.headerValue == "" {
-					p.headerValue = string(data[start:i])
+					// a value may contain spaces; only the optional whitespace
+					// after it is not part of it.
+					p.headerValue = strings.TrimRight(string(data[start:i]), " \t")
 				}
 				if len(p.trailer) == 0 {
 					return fmt.Errorf("invalid trailer '%v'", p.headerKey)
